@@ -140,11 +140,15 @@ class NearestPD(Contract):
 
     def apply(self, I, args, kwargs):
         mp = args[0]
-        if not hasattr(mp, "key_at"):
-            raise Unsupported("nearest_positive_definite of a non-sequence dict at a call site")
+        if hasattr(mp, "key_at"):
+            key_at, val_at = mp.key_at, mp.val_at
+        elif isinstance(mp, SDictV):
+            key_at, val_at = mp.kkey, (lambda i: mp.get(mp.kkey(i)))
+        else:
+            raise Unsupported("nearest_positive_definite of an unmodelled mapping at a call site")
         P = I.path
-        ksort = mp.key_at(z3.IntVal(0)).sort()
-        return SeqDict(P, "npd", mp.n, mp.key_at, lambda i: z3.If(mp.val_at(i) >= TOL, mp.val_at(i), TOL), ksort, z3.RealSort())
+        ksort = key_at(z3.IntVal(0)).sort()
+        return SeqDict(P, "npd", mp.n, key_at, lambda i: z3.If(val_at(i) >= TOL, val_at(i), TOL), ksort, z3.RealSort())
 
 
 class AdapterWorld:
